@@ -7,6 +7,7 @@ import (
 	"fmt"
 	"go/token"
 	"go/types"
+	"sort"
 	"strings"
 
 	"golang.org/x/tools/go/ssa"
@@ -423,7 +424,7 @@ func ruleGRDverbatimHybrid(w *World, r *Report) {
 
 // GRD-reindex: every change of a node's metadata entry goes through the index maintenance.
 func ruleGRDreindex(w *World, r *Report) {
-	r.Doc("GRD-reindex", "in DB.AddMetadata and DB.AddMetadataUnlocked no iteration of the per-key loop deletes from the node's metadata map and goes on to the next key without removeOldIndexEntries: the inverted, numeric and text indexes (and the BM25 statistics) never keep the entries of a value the node no longer has", 2)
+	r.Doc("GRD-reindex", "in DB.AddMetadata and DB.AddMetadataUnlocked no iteration of the per-key loop deletes from, or stores a new value into, the node's metadata map and goes on to the next key without removeOldIndexEntries (the unchanged-value shortcut aside): the inverted, numeric and text indexes (and the BM25 statistics) never keep the entries of a value the node no longer has", 4)
 	rm := w.FuncObj("pkg/core", "DB.removeOldIndexEntries")
 	if rm == nil {
 		r.Und("GRD-reindex", "anchor:DB.removeOldIndexEntries", "", "anchor lost")
@@ -462,6 +463,61 @@ func ruleGRDreindex(w *World, r *Report) {
 			if f, wt := (pathQuery{fn: fn, target: func(x ssa.Instruction) bool { return x == h.Instrs[0] }, avoid: callsTo(rm), blocked: blk}).find(posOf(in)); f {
 				ok, wit = false, wt
 			}
+		}
+		// … and the same for a key whose value is REPLACED: from the store into the node's metadata map the next key is
+		// reached only past removeOldIndexEntries — or over the "value unchanged" shortcut (the true edge of the
+		// same-value test), the one case in which there is nothing to remove
+		same := w.FuncObj("pkg/core", "isSameAnyValue")
+		okSet := true
+		var witSet []ssa.Instruction
+		nSets := 0
+		for _, in := range findInstrs(fn, func(in ssa.Instruction) bool {
+			mu, isMu := in.(*ssa.MapUpdate)
+			if !isMu {
+				return false
+			}
+			ts := mu.Map.Type().String()
+			return strings.HasSuffix(ts, "map[string]any") || strings.HasSuffix(ts, "map[string]interface{}")
+		}) {
+			mu := in.(*ssa.MapUpdate)
+			// the node's map: looked up in the store's metadata (not a fresh local map)
+			fromStore := false
+			for _, rt := range append(valueRoots(mu.Map), mu.Map) {
+				if lk, isLk := rt.(*ssa.Lookup); isLk {
+					_ = lk
+					fromStore = true
+				}
+			}
+			h := innermostLoop(fn, in.Block())
+			if !fromStore || h == nil {
+				continue
+			}
+			nSets++
+			body := naturalLoop(h)
+			blk := map[edgeKey]bool{}
+			for b := range body {
+				for si, sc := range b.Succs {
+					if !body[sc] {
+						blk[edgeKey{b, si}] = true
+					}
+				}
+			}
+			if same != nil {
+				for _, sc := range findInstrs(fn, callsTo(same)) {
+					t, _ := condEdges(sc.(ssa.Value))
+					for _, e := range t {
+						blk[e] = true
+					}
+				}
+			}
+			if f, wt := (pathQuery{fn: fn, target: func(x ssa.Instruction) bool { return x == h.Instrs[0] }, avoid: callsTo(rm), blocked: blk}).find(posOf(in)); f {
+				okSet, witSet = false, wt
+			}
+		}
+		if nSets > 0 {
+			r.Cond(okSet, "GRD-reindex", name+":metadata-overwrite-goes-through-removeOldIndexEntries", w.Pos(fi.Decl.Pos()), "a replaced value's index entries are removed on every path to the next key (the unchanged-value shortcut aside)", name+" stores a key's new value and goes on to the next key without removeOldIndexEntries (an early `continue` for values of a type that is not indexed): the entries of the OLD value stay in the inverted, numeric and text indexes — a field overwritten by null, an object or a number keeps matching filters on its former value, and VFilter disagrees with VGet until a restart", w.witness(witSet)...)
+		} else {
+			r.Und("GRD-reindex", name+":metadata-overwrite", w.Pos(fi.Decl.Pos()), "the store of the new value into the node's metadata map was not found (shape not recognised)")
 		}
 		r.Cond(ok, "GRD-reindex", name+":metadata-delete-goes-through-removeOldIndexEntries", w.Pos(fi.Decl.Pos()), "no key is dropped from the node's metadata on a path that skips the index maintenance", name+" drops a key from the node's metadata map and continues with the next key without removeOldIndexEntries (a 'null clears the property' shortcut): the node's postings and its entry in the BM25 statistics stay behind — VGet shows no text, text search still returns the document, and every other score uses a stale document count and average length", w.witness(wit)...)
 	}
@@ -1350,5 +1406,541 @@ func ruleGRDrmwCallers(w *World, r *Report) {
 	}
 	if n == 0 {
 		r.Und("GRD-rmw-callers", "sites", "", "no call of Engine.VSetMetadata outside the engine (analysis lost its anchors)")
+	}
+}
+
+// ---------------------------------------------------------------------------------------------------------------
+// GRD-writeback: a struct taken OUT of a map is a copy.
+// `entry := m[k]; entry.field = …` changes the copy; unless it is stored back (`m[k] = entry`) the map keeps the old
+// value. (It often seems to work anyway, because a map or slice FIELD of the copy is shared with the stored struct —
+// until that field was nil and the assignment creates it.)
+// ---------------------------------------------------------------------------------------------------------------
+func ruleGRDwriteback(w *World, r *Report) {
+	r.Doc("GRD-writeback", "in pkg/engine, a struct value read out of a map (v := m[k]) one of whose fields is then assigned is stored back into that map (m[k] = v) on every path from the assignment to the end of the function or to the next look-up: a map of structs hands out copies, and a replayed VMETA merged into the copy of an entry whose metadata map was still nil is lost with the copy", 1)
+	n := 0
+	for _, top := range w.pkgSSAFuncs("pkg/engine") {
+		if top.Parent() != nil {
+			continue
+		}
+		for _, fn := range append([]*ssa.Function{top}, closuresOf(top)...) {
+			k := 0
+			for _, b := range fn.Blocks {
+				for _, in := range b.Instrs {
+					al, ok := in.(*ssa.Alloc)
+					if !ok {
+						continue
+					}
+					if _, isStruct := al.Type().(*types.Pointer).Elem().Underlying().(*types.Struct); !isStruct {
+						continue
+					}
+					// filled from a map look-up?
+					var lk *ssa.Lookup
+					var fieldStores []*ssa.Store
+					for _, ref := range *al.Referrers() {
+						switch x := ref.(type) {
+						case *ssa.Store:
+							if x.Addr != ssa.Value(al) {
+								continue
+							}
+							v := x.Val
+							if ex, ok := v.(*ssa.Extract); ok {
+								v = ex.Tuple
+							}
+							if l, ok := v.(*ssa.Lookup); ok {
+								if _, isMap := l.X.Type().Underlying().(*types.Map); isMap {
+									lk = l
+								}
+							}
+						case *ssa.FieldAddr:
+							for _, r2 := range *x.Referrers() {
+								if st, ok := r2.(*ssa.Store); ok && st.Addr == ssa.Value(x) {
+									fieldStores = append(fieldStores, st)
+								}
+							}
+						}
+					}
+					if lk == nil || len(fieldStores) == 0 {
+						continue
+					}
+					n++
+					k++
+					stored := func(x ssa.Instruction) bool {
+						mu, ok := x.(*ssa.MapUpdate)
+						if !ok || !sameVal(mu.Map, lk.X) {
+							return false
+						}
+						ld, ok := mu.Value.(*ssa.UnOp)
+						return ok && ld.Op == token.MUL && ld.X == ssa.Value(al)
+					}
+					bad := false
+					var wit []ssa.Instruction
+					lkI := ssa.Instruction(lk)
+					for _, st := range fieldStores {
+						leaves := func(x ssa.Instruction) bool {
+							if _, isRet := x.(*ssa.Return); isRet {
+								return true
+							}
+							return x == lkI // the next record: the copy is overwritten
+						}
+						if f, wt := (pathQuery{fn: fn, target: leaves, avoid: stored}).find(posOf(st)); f {
+							bad, wit = true, wt
+						}
+					}
+					name := al.Comment
+					if name == "" {
+						name = "value"
+					}
+					r.Cond(!bad, "GRD-writeback", fmt.Sprintf("%s:%s#%d:stored-back", fnKey(top), name, k), w.Pos(al.Pos()), "the modified copy is stored back into the map on every path", fnKey(top)+" assigns a field of `"+name+"`, a struct it read out of a map, and can go on without storing the struct back: the map still holds the old value — a replayed VMETA for a vector that was added without metadata is merged into a metadata map that exists only on the copy, and the vector comes back from the restart without the metadata VSetMetadata / VReinforce had acknowledged", w.witness(wit)...)
+				}
+			}
+		}
+	}
+	if n == 0 {
+		r.Und("GRD-writeback", "sites", "", "no struct read out of a map and modified in pkg/engine (analysis lost its anchors)")
+	}
+}
+
+// ---------------------------------------------------------------------------------------------------------------
+// GRD-zerocapture: a function literal does not read a variable that nobody ever writes.
+// Hoisting a closure out of a loop needs a variable of the outer scope for what used to be the loop variable; if the
+// loop keeps its own `x := …` the closure reads the outer one, which stays at its zero value for ever — the depth of a
+// breadth-first expansion is then always 0 and the depth limit never triggers.
+// ---------------------------------------------------------------------------------------------------------------
+func ruleGRDzerocapture(w *World, r *Report) {
+	badCount := 0
+	r.Doc("GRD-zerocapture", "in the query and traversal code (pkg/engine, pkg/rag, pkg/core) no function literal reads a captured variable that is declared without a value and never assigned or handed out by address anywhere: such a variable is its zero value for ever (a hoisted closure that still means the loop's own `curr := queue[0]` reads depth 0 on every node, and max_depth bounds nothing)", 1)
+	n := 0
+	for _, rel := range []string{"pkg/engine", "pkg/rag", "pkg/core"} {
+		for _, top := range w.pkgSSAFuncs(rel) {
+			if top.Parent() != nil {
+				continue
+			}
+			for _, fn := range append([]*ssa.Function{top}, closuresOf(top)...) {
+				for _, b := range fn.Blocks {
+					for _, in := range b.Instrs {
+						mc, ok := in.(*ssa.MakeClosure)
+						if !ok {
+							continue
+						}
+						cl, _ := mc.Fn.(*ssa.Function)
+						for bi, bind := range mc.Bindings {
+							al, ok := bind.(*ssa.Alloc)
+							if !ok || cl == nil || bi >= len(cl.FreeVars) {
+								continue
+							}
+							n++
+							// every use of the cell, here and in the function literals that capture it
+							written := false
+							var visit func(addr ssa.Value, depth int)
+							visit = func(addr ssa.Value, depth int) {
+								if depth > 4 || addr.Referrers() == nil || written {
+									return
+								}
+								for _, ref := range *addr.Referrers() {
+									switch x := ref.(type) {
+									case *ssa.Store:
+										if x.Addr == addr {
+											written = true
+										} else {
+											written = true // the address itself is stored somewhere
+										}
+									case *ssa.UnOp: // a load
+									case *ssa.FieldAddr:
+										visit(x, depth+1)
+									case *ssa.IndexAddr:
+										visit(x, depth+1)
+									case *ssa.MakeClosure:
+										if g, ok := x.Fn.(*ssa.Function); ok {
+											for i, bb := range x.Bindings {
+												if bb == addr && i < len(g.FreeVars) {
+													visit(g.FreeVars[i], depth+1)
+												}
+											}
+										}
+									case *ssa.DebugRef:
+									default:
+										written = true // passed to a call, sent, converted…: may be written through
+									}
+								}
+							}
+							visit(al, 0)
+							if written {
+								continue
+							}
+							// read in the literal?
+							read := false
+							fv := cl.FreeVars[bi]
+							if fv.Referrers() != nil {
+								for _, ref := range *fv.Referrers() {
+									switch ref.(type) {
+									case *ssa.UnOp, *ssa.FieldAddr, *ssa.IndexAddr:
+										read = true
+									}
+								}
+							}
+							if !read {
+								continue
+							}
+							name := al.Comment
+							r.Bad("GRD-zerocapture", fmt.Sprintf("%s:captured:%s:assigned-somewhere", fnKey(top), name), w.Pos(al.Pos()), "the function literal in "+fnKey(top)+" reads the captured variable `"+name+"`, which is declared without a value and never assigned (a variable of the same name declared inside the loop shadows it): the literal sees the zero value on every call — in a breadth-first expansion the depth it computes from is always 0, every node is enqueued at depth 1, and max_depth never stops the walk: a scoped search returns ids outside its scope")
+							badCount++
+						}
+					}
+				}
+			}
+		}
+	}
+	r.Count("captured_variables_checked", n)
+	if n == 0 {
+		r.Und("GRD-zerocapture", "sites", "", "no captured variable found (analysis lost its anchors)")
+	} else if badCount == 0 {
+		r.Ok("GRD-zerocapture", "captured-variables:all-assigned-somewhere", "", fmt.Sprintf("%d captured variables, each assigned, initialised or handed out by address somewhere", n))
+	}
+}
+
+// ---------------------------------------------------------------------------------------------------------------
+// GRD-newid: a rebuilt index numbers its nodes anew.
+// DB.Compress (and every other rebuild) inserts the live vectors into a fresh index; internal ids are assigned by the
+// new index, and they equal the old ones only while the old id space had no holes. Metadata is keyed by internal id.
+// ---------------------------------------------------------------------------------------------------------------
+func ruleGRDnewid(w *World, r *Report) {
+	r.Doc("GRD-newid", "in DB.Compress the internal id under which a record's metadata is re-attached (AddMetadata / AddMetadataUnlocked) is asked of the NEW index — the result of a GetInternalID / Add on the index built in this call —, never carried over from the old one: after any delete the two numberings differ, and metadata filed under the old number belongs to another record (VGet returns somebody else's metadata, or none)", 1)
+	fi := w.Func("pkg/core", "DB.Compress")
+	if fi == nil {
+		r.Und("GRD-newid", "anchor:DB.Compress", "", "anchor lost")
+		return
+	}
+	top := w.SSAFunc(fi.Obj)
+	am, amu := w.FuncObj("pkg/core", "DB.AddMetadata"), w.FuncObj("pkg/core", "DB.AddMetadataUnlocked")
+	newObj := w.FuncObj(hnswPkg, "New")
+	n := 0
+	for _, f := range append(append([]*ssa.Function{top}, closuresOf(top)...), w.extractedHelpers(top)...) {
+		for _, in := range findInstrs(f, callsTo(am, amu)) {
+			c := in.(*ssa.Call)
+			n++
+			id := c.Call.Args[2]
+			fromNew := false
+			for _, rt := range append(arithLeaves(id, 0), id) {
+				if ex, ok := rt.(*ssa.Extract); ok {
+					rt = ex.Tuple
+				}
+				lc, ok := rt.(*ssa.Call)
+				if !ok {
+					continue
+				}
+				o := calleeObj(&lc.Call)
+				if o == nil || relPkg(o) != hnswPkg || (o.Name() != "GetInternalID" && o.Name() != "Add") {
+					continue
+				}
+				// the receiver is the index constructed here
+				recv := lc.Call.Args[0]
+				for _, rr := range append(valueRoots(recv), recv) {
+					if ex, ok := rr.(*ssa.Extract); ok {
+						rr = ex.Tuple
+					}
+					if nc, ok := rr.(*ssa.Call); ok && calleeObj(&nc.Call) == newObj {
+						fromNew = true
+					}
+					if ld, ok := rr.(*ssa.UnOp); ok && ld.Op == token.MUL { // captured by a worker closure
+						if p := cellRoot(ld.X); p != nil {
+							for _, st := range cellStores(p) {
+								v := st.Val
+								if ex, ok := v.(*ssa.Extract); ok {
+									v = ex.Tuple
+								}
+								if nc, ok := v.(*ssa.Call); ok && calleeObj(&nc.Call) == newObj {
+									fromNew = true
+								}
+							}
+						}
+					}
+				}
+			}
+			r.Cond(fromNew, "GRD-newid", fmt.Sprintf("DB.Compress:metadata#%d:filed-under-the-new-index-id", n), w.Pos(c.Pos()), "the id comes from a look-up in the index built by this call", "DB.Compress re-attaches a record's metadata under an internal id that was not obtained from the rebuilt index (an id remembered from the old index): the new index numbers its nodes from 1 without the holes deletes had left, so after any VDelete every later record's metadata is filed under the wrong node — VGet returns another record's metadata or none, and VCompress snapshots that state", w.witness([]ssa.Instruction{c})...)
+		}
+	}
+	if n == 0 {
+		r.Und("GRD-newid", "sites", w.Pos(fi.Decl.Pos()), "DB.Compress no longer re-attaches metadata through AddMetadata (shape not recognised)")
+	}
+}
+
+// ---------------------------------------------------------------------------------------------------------------
+// GRD-frozenset: the set of nodes a vacuum removes is complete before the pass that consults it.
+// Vacuum collects the tombstones (phase 1), then scans every live node for links into that set and repairs them (phase
+// 2), then frees the nodes of the set. A node that enters the set DURING the scan is freed like the others, but the
+// live nodes scanned before it were checked against a set that did not contain it: their links now dangle.
+// ---------------------------------------------------------------------------------------------------------------
+func ruleGRDfrozenset(w *World, r *Report) {
+	r.Doc("GRD-frozenset", "in GraphOptimizer.Vacuum (and the helpers extracted from it) no loop both consults and grows the same set (a map with empty-struct or bool values): the set of nodes to remove is complete before the repair scan looks anything up in it — a tombstone added to it while the scan is under way is freed although the nodes scanned earlier still link to it, and the part of the graph behind those links becomes unreachable", 1)
+	fi := w.Func(hnswPkg, "GraphOptimizer.Vacuum")
+	if fi == nil {
+		r.Und("GRD-frozenset", "anchor:GraphOptimizer.Vacuum", "", "anchor lost")
+		return
+	}
+	top := w.SSAFunc(fi.Obj)
+	n := 0
+	for _, f := range append(append([]*ssa.Function{top}, closuresOf(top)...), w.extractedHelpers(top)...) {
+		// the sets of f: maps whose values carry no information
+		isSet := func(t types.Type) bool {
+			m, ok := t.Underlying().(*types.Map)
+			if !ok {
+				return false
+			}
+			if st, ok := m.Elem().Underlying().(*types.Struct); ok && st.NumFields() == 0 {
+				return true
+			}
+			return isBoolType(m.Elem())
+		}
+		type use struct {
+			looks, grows []ssa.Instruction
+		}
+		sets := map[ssa.Value]*use{}
+		root := func(v ssa.Value) ssa.Value {
+			for _, rt := range valueRoots(v) {
+				if _, ok := rt.(*ssa.MakeMap); ok {
+					return rt
+				}
+			}
+			if ld, ok := v.(*ssa.UnOp); ok && ld.Op == token.MUL {
+				return cellRoot(ld.X)
+			}
+			return v
+		}
+		for _, b := range f.Blocks {
+			for _, in := range b.Instrs {
+				switch x := in.(type) {
+				case *ssa.Lookup:
+					if isSet(x.X.Type()) {
+						k := root(x.X)
+						if sets[k] == nil {
+							sets[k] = &use{}
+						}
+						sets[k].looks = append(sets[k].looks, in)
+					}
+				case *ssa.MapUpdate:
+					if isSet(x.Map.Type()) {
+						k := root(x.Map)
+						if sets[k] == nil {
+							sets[k] = &use{}
+						}
+						sets[k].grows = append(sets[k].grows, in)
+					}
+				}
+			}
+		}
+		var order []*use
+		for _, u := range sets {
+			if len(u.looks) > 0 && len(u.grows) > 0 {
+				order = append(order, u)
+			}
+		}
+		sort.Slice(order, func(i, j int) bool { return order[i].grows[0].Pos() < order[j].grows[0].Pos() })
+		for _, u := range order {
+			n++
+			bad := false
+			var wit []ssa.Instruction
+			for _, g := range u.grows {
+				for h := innermostLoop(f, g.Block()); h != nil; {
+					body := naturalLoop(h)
+					for _, l := range u.looks {
+						if body[l.Block()] {
+							bad, wit = true, []ssa.Instruction{l, g}
+						}
+					}
+					// the enclosing loop, if any
+					var outer *ssa.BasicBlock
+					for _, hb := range f.Blocks {
+						if hb != h && naturalLoop(hb)[h] && len(naturalLoop(hb)) > len(body) {
+							isHeader := false
+							for _, p := range hb.Preds {
+								if hb.Dominates(p) {
+									isHeader = true
+								}
+							}
+							if isHeader && (outer == nil || len(naturalLoop(hb)) < len(naturalLoop(outer))) {
+								outer = hb
+							}
+						}
+					}
+					h = outer
+				}
+			}
+			r.Cond(!bad, "GRD-frozenset", fmt.Sprintf("%s:set#%d:complete-before-it-is-consulted", fnKey(f), n), w.Pos(u.grows[0].Pos()), "no loop both looks the set up and adds to it", fnKey(f)+" adds to the set of nodes it is about to remove inside the very scan that looks links up in that set: a node deleted after the collection phase is picked up when the scan reaches it, but the live nodes with smaller ids were already checked against the set without it — they are not re-linked, the node is freed, their links dangle and the part of the base layer behind them can no longer be reached from the entry point", w.witness(wit)...)
+		}
+	}
+	if n == 0 {
+		r.Und("GRD-frozenset", "sites", w.Pos(fi.Decl.Pos()), "Vacuum no longer keeps a set of nodes that is both filled and consulted (shape not recognised)")
+	}
+}
+
+// LCK-1 for one family of locks (the shard locks of the edge store): the functions that take them release them on every
+// path. The whole-program rule is C13's; this is the part of it C10 depends on — an edge operation that returns with its
+// two shard locks held (an early return added in front of a hand-written unlock) freezes every later look-up of those
+// shards, forward and reverse.
+func ruleLCK1graph(w *World, r *Report) {
+	r.Doc("LCK-1g", "every function of pkg/core that takes a graph shard lock (GraphShard.mu, directly or through LockTwoShards) releases it on every path — explicitly or by defer: no return with a shard still locked", 4)
+	lr := w.lockAnalysis()
+	n := 0
+	seen := map[string]bool{}
+	for _, fn := range lr.funcs {
+		if fn.Pkg == nil || fn.Pkg.Pkg == nil || !strings.HasSuffix(fn.Pkg.Pkg.Path(), "/pkg/core") {
+			continue
+		}
+		s := lr.sum[fn]
+		takes := false
+		for k := range s.acquires {
+			if strings.Contains(k.class, "GraphShard.mu") {
+				takes = true
+			}
+		}
+		if !takes || seen[fnName(fn)] {
+			continue
+		}
+		seen[fnName(fn)] = true
+		n++
+		bad := ""
+		var at token.Pos
+		for id, pos := range lr.unpairedAt {
+			if strings.HasPrefix(id, fnName(fn)+":") && strings.Contains(id, "GraphShard.mu") {
+				bad, at = strings.TrimPrefix(id, fnName(fn)+":"), pos
+			}
+		}
+		pos := w.Pos(fn.Pos())
+		if bad != "" {
+			pos = w.Pos(at)
+		}
+		r.Cond(bad == "", "LCK-1g", "releases-its-shard-locks:"+shortQ(fnName(fn)), pos, "every acquisition of a shard lock is released on every path", shortQ(fnName(fn))+" can return while still holding "+bad+": the next operation on a node of that shard — a link, an unlink, a look-up in either view, the snapshot — blocks for ever")
+	}
+	if n == 0 {
+		r.Und("LCK-1g", "sites", "", "no function of pkg/core takes a graph shard lock (analysis lost its anchors)")
+	}
+}
+
+// ---------------------------------------------------------------------------------------------------------------
+// LCK-deferloop: a lock taken per iteration is released per iteration.
+// `defer mu.Unlock()` inside a loop body does not run at the end of the iteration but when the FUNCTION returns: every
+// lock the loop takes stays held. With sharded locks (one mutex per id modulo 256) the second id that falls into an
+// already held shard blocks on a mutex its own goroutine holds — for ever, inside the write gate.
+// ---------------------------------------------------------------------------------------------------------------
+func ruleLCKdeferloop(w *World, r *Report) {
+	r.Doc("LCK-deferloop", "no function of the module defers the release of a sync.Mutex / sync.RWMutex inside a loop (a deferred call runs at function return, not at the end of the iteration): a lock acquired in a loop body is released by an explicit Unlock on every path of the iteration, or the iteration is a function literal of its own. (Locking every element of an array by its index and releasing them all at return is not this: each iteration takes another instance.)", 1)
+	n, bad := 0, 0
+	for _, fi := range w.ModuleFuncs() {
+		top := w.SSAFunc(fi.Obj)
+		if top == nil {
+			continue
+		}
+		for _, f := range append([]*ssa.Function{top}, closuresOf(top)...) {
+			for _, b := range f.Blocks {
+				for _, in := range b.Instrs {
+					d, ok := in.(*ssa.Defer)
+					if !ok {
+						continue
+					}
+					o := calleeObj(&d.Call)
+					if o == nil || o.Pkg() == nil || o.Pkg().Path() != "sync" {
+						continue
+					}
+					switch shortName(o) {
+					case "Mutex.Unlock", "RWMutex.Unlock", "RWMutex.RUnlock":
+					default:
+						continue
+					}
+					n++
+					if innermostLoop(f, b) == nil {
+						continue
+					}
+					// "lock them all, release them all at return": the lock is the element of an array or slice selected by
+					// the loop counter itself — a different instance on every iteration, held on purpose
+					if len(d.Call.Args) > 0 {
+						a := d.Call.Args[0]
+						for {
+							if fa, ok := a.(*ssa.FieldAddr); ok {
+								a = fa.X
+								continue
+							}
+							break
+						}
+						if ia, ok := a.(*ssa.IndexAddr); ok && isInduction(ia.Index) {
+							continue
+						}
+					}
+					bad++
+					r.Bad("LCK-deferloop", fmt.Sprintf("%s:deferred-unlock-in-a-loop", fnKey(top)), w.Pos(d.Pos()), fnKey(top)+" defers an unlock inside a loop: the deferred call runs when the function returns, so every lock the loop takes stays held until then — a later iteration (or a concurrent call walking the ids in another order) that needs a lock of the same shard blocks for ever, and with it every snapshot that waits for this operation to leave the write gate", w.witness([]ssa.Instruction{d})...)
+				}
+			}
+		}
+	}
+	r.Count("deferred_unlocks_checked", n)
+	if n == 0 {
+		r.Und("LCK-deferloop", "sites", "", "no deferred unlock in the module (analysis lost its anchors)")
+	} else if bad == 0 {
+		r.Ok("LCK-deferloop", "deferred-unlocks:none-inside-a-loop", "", fmt.Sprintf("%d deferred unlocks, none inside a loop", n))
+	}
+}
+
+// ---------------------------------------------------------------------------------------------------------------
+// GRD-dimcheck: the index itself refuses a vector of another dimension.
+// The arena slot size is fixed by the first insertion; the copy into a slot writes exactly that many components.
+// ---------------------------------------------------------------------------------------------------------------
+func ruleGRDdimcheck(w *World, r *Report) {
+	r.Doc("GRD-dimcheck", "Index.initArenaIfNeeded — which every insertion path calls under the index lock before it takes a slot — compares the incoming dimension with the one the first insertion fixed and returns an error when they differ; its callers test that error: a vector of another length is never copied into a slot (cut, or padded with the slot's old bytes). The engine's own comparison is a separate step and is off while the index is empty, so first insertions racing into a fresh index all pass it", 3)
+	fi := w.Func(hnswPkg, "Index.initArenaIfNeeded")
+	if fi == nil {
+		r.Und("GRD-dimcheck", "anchor:Index.initArenaIfNeeded", "", "anchor lost")
+		return
+	}
+	fn := w.SSAFunc(fi.Obj)
+	isDimField := func(v ssa.Value) bool { return isFieldLoad(v, "vectorDim") }
+	var cmps []*ssa.BinOp
+	for _, b := range fn.Blocks {
+		for _, in := range b.Instrs {
+			bo, ok := in.(*ssa.BinOp)
+			if !ok || (bo.Op != token.NEQ && bo.Op != token.EQL) {
+				continue
+			}
+			_, px := bo.X.(*ssa.Parameter)
+			_, py := bo.Y.(*ssa.Parameter)
+			if (px && isDimField(bo.Y)) || (py && isDimField(bo.X)) {
+				cmps = append(cmps, bo)
+			}
+		}
+	}
+	ok := len(cmps) > 0
+	var wit []ssa.Instruction
+	for _, c := range cmps {
+		t, f := condEdges(c)
+		differs := t
+		if c.Op == token.EQL {
+			differs = f
+		}
+		nilRet := func(in ssa.Instruction) bool {
+			rt, isRet := in.(*ssa.Return)
+			return isRet && isNilConst(retVal(rt, 0))
+		}
+		for _, e := range differs {
+			if fd, wt := (pathQuery{fn: fn, target: nilRet}).find(ipos{e.from.Succs[e.succ], -1}); fd {
+				ok, wit = false, wt
+			}
+		}
+	}
+	r.Cond(ok, "GRD-dimcheck", "Index.initArenaIfNeeded:refuses-another-dimension", w.Pos(fi.Decl.Pos()), "a dimension that differs from the index's own is answered with an error", "Index.initArenaIfNeeded accepts any dimension once the index has one: Add / AddBatch then copy exactly vectorDim components into the slot — a longer vector is cut, a shorter one padded — and VAdd acknowledges a vector that VGet returns mutilated (4 concurrent first inserts of another length into a fresh index pass the engine's guard, which is off while GetDimension is 0)", w.witness(wit)...)
+	// the insertion paths ask, and look at the answer
+	for _, name := range []string{"Index.addActive", "Index.addBatchInternal"} {
+		cf := w.Func(hnswPkg, name)
+		if cf == nil {
+			r.Und("GRD-dimcheck", "anchor:"+name, "", "anchor lost")
+			continue
+		}
+		cfn := w.SSAFunc(cf.Obj)
+		asked := false
+		for _, f := range append(append([]*ssa.Function{cfn}, closuresOf(cfn)...), w.extractedHelpers(cfn)...) {
+			for _, in := range findInstrs(f, callsTo(fi.Obj)) {
+				if len(failureEdges(f, in.(*ssa.Call))) > 0 {
+					asked = true
+				}
+			}
+		}
+		r.Cond(asked, "GRD-dimcheck", name+":asks-before-it-stores", w.Pos(cf.Decl.Pos()), "calls initArenaIfNeeded and tests its error", name+" no longer calls initArenaIfNeeded (or ignores its error): nothing compares the vector's length with the slot size before the copy")
 	}
 }
